@@ -266,7 +266,12 @@ func (g *Generated) flat(state string, out *[]flatRule, depth int) {
 func (g *Generated) GenInput(t *rapid.T) string {
 	type fr struct{ state, piece string }
 	stack := []fr{{"Root", ""}}
-	n := rapid.IntRange(0, 10).Draw(t, "ilen")
+	n := rapid.IntRange(-1, 12).Draw(t, "ilen")
+	if n < 0 {
+		n = 0
+	} else if n == 0 {
+		n = 3
+	}
 	var sb strings.Builder
 	var pieces []string
 	for i := 0; i < n; i++ {
